@@ -305,6 +305,10 @@ impl<const BUFFER_CAPACITY: usize> RibbonController<BUFFER_CAPACITY> {
         )
     }
 
+    /// the stored press flag behind `finger_is_pressing()`
+    pub fn verif_raw(&self) -> bool {
+        self.finger_is_pressing
+    }
     pub fn verif_buffer(&self) -> &HistoryBuffer<f32, BUFFER_CAPACITY> {
         &self.buff
     }
